@@ -66,15 +66,104 @@ func (ex *Exec) frozenWrite(c *Cell, v Value) {
 		same = eq.conc && eq.cv != 0
 	}()
 	ex.frozenHits = append(ex.frozenHits, frozenHit{level: c.frozen, where: ex.curWhere(), label: cellPath(c), same: same, locks: len(ex.heldLocks()), newVal: v})
+	if ex.sharedOn && c.frozen == 2 {
+		ex.noteShared(c, func() string { return cellPath(c) }, true)
+	}
 }
 
 func (ex *Exec) frozenMapWrite(m *MapObj, key Value) {
 	ks, _ := ex.keyString(key)
 	lvl := uint8(2)
 	ex.frozenHits = append(ex.frozenHits, frozenHit{level: lvl, where: ex.curWhere(), label: fmt.Sprintf("map#%d{%s}", m.id, ks), isMap: true, locks: len(ex.heldLocks())})
+	if ex.sharedOn {
+		ex.noteShared(m, func() string { return fmt.Sprintf("map#%d", m.id) }, true)
+	}
 }
 
-func (ex *Exec) noteRead(c *Cell) {}
+// sharedInfo is the Eraser state of one shared location (a leaf cell or a map): the locks held at every access so far.
+type sharedInfo struct {
+	label    string
+	written  bool
+	inited   bool
+	lockset  map[*Cell]bool
+	writeAt  string
+	unlocked []string // accesses made with no lock at all (for the message)
+}
+
+func (ex *Exec) noteShared(key interface{}, label func() string, write bool) {
+	if ex.sharedAcc == nil {
+		ex.sharedAcc = map[interface{}]*sharedInfo{}
+	}
+	inf := ex.sharedAcc[key]
+	if inf == nil {
+		inf = &sharedInfo{label: label()}
+		ex.sharedAcc[key] = inf
+		ex.sharedOrder = append(ex.sharedOrder, key)
+	}
+	held := ex.heldLocks()
+	if !inf.inited {
+		inf.inited = true
+		inf.lockset = map[*Cell]bool{}
+		for _, l := range held {
+			inf.lockset[l] = true
+		}
+	} else {
+		for l := range inf.lockset {
+			found := false
+			for _, h := range held {
+				if h == l {
+					found = true
+				}
+			}
+			if !found {
+				delete(inf.lockset, l)
+			}
+		}
+	}
+	if write {
+		inf.written = true
+		if inf.writeAt == "" {
+			inf.writeAt = ex.curWhere()
+		}
+	}
+	if len(held) == 0 && len(inf.unlocked) < 3 {
+		kind := "read"
+		if write {
+			kind = "written"
+		}
+		w := kind + " at " + ex.curWhere()
+		for _, u := range inf.unlocked {
+			if u == w {
+				return
+			}
+		}
+		inf.unlocked = append(inf.unlocked, w)
+	}
+}
+
+func (ex *Exec) noteRead(c *Cell) {
+	if !ex.sharedOn || c == nil {
+		return
+	}
+	if c.elems != nil {
+		for _, e := range c.elems {
+			ex.noteRead(e)
+		}
+		return
+	}
+	if c.frozen == 2 {
+		if _, isN := c.val.(NativeV); isN {
+			return // the synchronisation objects themselves
+		}
+		ex.noteShared(c, func() string { return cellPath(c) }, false)
+	}
+}
+
+func (ex *Exec) noteMapRead(m *MapObj) {
+	if ex.sharedOn && m != nil && m.frozen {
+		ex.noteShared(m, func() string { return fmt.Sprintf("map#%d", m.id) }, false)
+	}
+}
 
 func (ex *Exec) heldLocks() []*Cell {
 	if ex.sched != nil && ex.sched.cur != nil {
